@@ -190,3 +190,14 @@ Fixpoint rows_amount (u rc : Z) (rows : list (list Z)) : Z :=
        end) + rows_amount u rc rest
   end.
 Definition sumZ (l : list Z) : Z := fold_right Z.add 0 l.
+
+(* ---------------------------------------------------------------- the history that counts *)
+(* the requests of a history that were answered without an error, in order *)
+Fixpoint successes (cf : cfg) (d : db) (l : list req) : list req :=
+  match l with
+  | [] => []
+  | r :: l' =>
+      let '(d', rs) := step cf d r in
+      if status rs <? 400 then r :: successes cf d' l' else successes cf d' l'
+  end.
+
